@@ -34,16 +34,16 @@ func init() {
 
 // caseSpec is everything needed to re-execute one case on the real code.
 type caseSpec struct {
-	Kind   string      `json:"kind"`
-	Min    int64       `json:"min,omitempty"`
-	Max    int64       `json:"max,omitempty"`
-	A      uint64      `json:"a,omitempty"`
-	B      uint64      `json:"b,omitempty"`
-	V      int64       `json:"v,omitempty"`
-	Shift  uint        `json:"shift,omitempty"`
-	Corpus *corpus     `json:"corpus,omitempty"`
-	Query  *querySpec  `json:"query,omitempty"`
-	Sort   *sortSpec   `json:"sort,omitempty"`
+	Kind   string     `json:"kind"`
+	Min    int64      `json:"min,omitempty"`
+	Max    int64      `json:"max,omitempty"`
+	A      uint64     `json:"a,omitempty"`
+	B      uint64     `json:"b,omitempty"`
+	V      int64      `json:"v,omitempty"`
+	Shift  uint       `json:"shift,omitempty"`
+	Corpus *corpus    `json:"corpus,omitempty"`
+	Query  *querySpec `json:"query,omitempty"`
+	Sort   *sortSpec  `json:"sort,omitempty"`
 }
 
 type record struct {
@@ -254,7 +254,10 @@ func run(c *core.Ctx) error {
 	c.Assume("an open end of a numeric range means the infinity of that side with the given inclusive flag (as documented in NewNumericRangeSearcher); NaN and -0 are excluded as the property states")
 
 	// 1. the model decides (concurrently with the Go side)
-	type mc struct{ cfg string; workers int }
+	type mc struct {
+		cfg     string
+		workers int
+	}
 	models := []mc{{"NumericMC_pair_w7.cfg", 3}, {"NumericMC_split_b4l3g2.cfg", 2}, {"NumericMC_pair_w6.cfg", 1}, {"NumericMC_split_b2l4.cfg", 1}}
 	if c.Thorough() {
 		models = append(models, mc{"NumericMC_split_b4l3.cfg", 2}, mc{"NumericMC_split_b2l6.cfg", 2}, mc{"NumericMC_split_b16l2.cfg", 4}, mc{"NumericMC_pair_w8.cfg", 4})
